@@ -11,6 +11,8 @@
                (the code read them as unsigned numbers and accepted overflowing products)
      8. operator|| : the last case returns (this | x) | [x.start, x.start + delta]
                (the code returned x | [...], which can miss members of *this)
+     9. mk_winterval(lb, ub, width) : top when ub - lb >= 2^width - 1
+               (the code reduced the bounds modulo 2^width independently)
 
    Conventions.
    - top is the interval [0,7] of bitwidth 3 (whatever the bitwidth of the other operand);
@@ -51,9 +53,12 @@ Definition wi_end (i : witv) : option wrapint := if is_top i then None else Some
 (* mk_winterval *)
 Definition mk_winterval1 (n w : Z) : option witv :=
   if fits_wrapint n w then do x <- of_z n w; Some (wi_single x) else Some wi_top.
+(* (repaired: a range with 2^width numbers or more is top) *)
 Definition mk_winterval2 (lb ub w : Z) : option witv :=
   if negb (fits_wrapint lb w) then Some wi_top
   else if negb (fits_wrapint ub w) then Some wi_top
+  else if negb (valid_width w) then None   (* get_unsigned_max(width): CRAB_ERROR *)
+  else if get_unsigned_bignum (get_unsigned_max w) <=? ub - lb then Some wi_top
   else do l <- of_z lb w; do u <- of_z ub w; Some (wi_mk l u).
 
 Definition is_singleton (i : witv) : bool :=
